@@ -36,10 +36,16 @@ func (n NamePattern) String() string {
 	if len(ret) == 0 {
 		ret = "/"
 	} else {
-		if c, ok := n[len(n)-1].(*Component); ok {
-			if c.Typ == TypeGenericNameComponent && len(c.Val) == 0 {
-				ret += "/"
-			}
+		// The last element may be held by value (as NamePatternFromStr does) or by pointer.
+		var last *Component
+		switch c := n[len(n)-1].(type) {
+		case Component:
+			last = &c
+		case *Component:
+			last = c
+		}
+		if last != nil && last.Typ == TypeGenericNameComponent && len(last.Val) == 0 {
+			ret += "/"
 		}
 	}
 	return ret
